@@ -21,6 +21,8 @@ func main() {
 		cmdDump(os.Args[2:])
 	case "check":
 		cmdCheck(os.Args[2:])
+	case "loops":
+		cmdLoops(os.Args[2:])
 	default:
 		fmt.Fprintln(os.Stderr, "unknown command")
 		os.Exit(2)
